@@ -17,11 +17,15 @@ def run(m, chk):
         "(Bezier/spline x rational/non-rational exhaustively); the degree-0 branch returns a curve on the curve's limits built from 0 * ctrlpoints[0]; the result depends on knot vector, "
         "control points and — on rational branches — weights. The derivative values and the quotient-rule algebra are not decided."
     )
-    chk.decides = ["PURE", "FRESH", "EXHAUSTIVE dispatch", "DEP-MAY", "degree-0 branch shape", 'INTERVAL (the derivative lives on the operand knot values)']
+    chk.decides = ["PURE", "FRESH", "EXHAUSTIVE dispatch", "DEP-MAY", "degree-0 branch shape", 'INTERVAL (the derivative lives on the operand knot values)', 'ZIP-ALIGN (the product knot vector of the quotient rule pairs parallel lists with the same slice)', 'NO-LOSSY (the derivative is not passed through a tolerance-accepting simplifier)']
     chk.not_decided = ["D(u) = dC/du as values", "quotient rule algebra", "knot vector of the derivative"]
     for f in FUNCS:
         r.pure("PURE", D + f, ["curve"])
         r.fresh_result("FRESH", D + f)
+    from .extra import no_lossy, zip_align
+
+    zip_align(r, chk, [D + "__new__"])
+    no_lossy(r, chk, [D + "__new__"])
     for f in ("curve", "bezier", "spline", "__new__"):
         ctx = r.root(D + f)
         ft = falls_through(ctx)
